@@ -237,7 +237,18 @@ def roundtrip(mon, rec, rng, d, U):
     elif cast is not None:
         kw["dtype"] = np.dtype(cast) if rng.random() < 0.5 else cast
     try:
-        if access == "name":
+        if access == "name" and rng.random() < 0.2:
+            # a name relative to the current working directory
+            here = os.getcwd()
+            os.chdir(sub)
+            rec.count("reads_by_relative_name")
+            try:
+                rel = os.path.basename(path) if rng.random() < 0.5 else os.path.join(".", os.path.basename(path))
+                mon.register(rel, expected=np.ascontiguousarray(want), info=info)
+                U.read_signal(rel, **kw)
+            finally:
+                os.chdir(here)
+        elif access == "name":
             mon.register(path, expected=np.ascontiguousarray(want), info=info)
             U.read_signal(path, **kw)
         elif access == "forced":
